@@ -88,6 +88,9 @@ def shape_wrapper(item, ob):
         x, a, b = mval(model, X), mval(model, A), mval(model, B)
         if variant == 'PartialApp2' and nargs == 1 and x != 0: return {'program': f'(//)({fmt_int(x)})({fmt_int(a)})', 'expect': {'equals': f'OK {a // x}'}}
         if variant == 'Flip' and nargs == 2 and a != 0: return {'program': f'flip(//)({fmt_int(a)}, {fmt_int(b)})', 'expect': {'equals': f'OK {b // a}'}}
+        # one argument to a flipped function is the right-section rule F(b)(a) == F(a, b): flip(f)(a)(7) == flip(f)(7, a) == f(a, 7)
+        if variant == 'Flip' and nargs == 1: return {'program': f'flip(//)({fmt_int(a)})(7)', 'expect': {'equals': f'OK {a // 7}'}}
+        if variant == 'PartialApp1' and nargs == 1 and a != 0: return {'program': f'({fmt_int(x)} //)({fmt_int(a)})', 'expect': {'equals': f'OK {x // a}'}}
         if variant == 'Composition' and nargs == 2: return {'program': f'((-) >>> (\\t -> t // 3))({fmt_int(a)}, {fmt_int(b)})', 'expect': {'equals': f'OK {(a - b) // 3}'}}
         return None
     for pc, kd, res, lg in E.explore(run):
